@@ -93,7 +93,7 @@ def command(st, prop, tier, seed, shard, nshards, out):
     build = st["build"]
     scratch = os.path.join(WORK, "scratch")
     if build == "miri":
-        flags = "-Zmiri-disable-isolation -Zmiri-disable-stacked-borrows " + st.get("miriflags", "")
+        flags = "-Zmiri-disable-isolation -Zmiri-disable-stacked-borrows -Zmiri-ignore-leaks " + st.get("miriflags", "")
         env = _env({"MIRIFLAGS": flags})
         cmd = ["cargo", "+nightly", "miri", "run", "--offline", "--target-dir", os.path.join(WORK, "target-miri"), "--"] + args
         return cmd, env | {"VH_CWD": HARNESS}
